@@ -257,7 +257,12 @@ def parse_version_info(version_str: str, raw_pattern: str = "{pycalver}") -> ver
         )
         raise version.PatternError(err_msg)
     else:
-        return _parse_version_info(match.groupdict())
+        try:
+            return _parse_version_info(match.groupdict())
+        except ValueError as err:
+            # e.g. "2021.02.30" for "{year}.{month}.{dom}": matches the pattern, but is not a date
+            err_msg = f"Invalid version string '{version_str}' for pattern '{raw_pattern}': {err}"
+            raise version.PatternError(err_msg)
 
 
 def is_valid(version_str: str, raw_pattern: str = "{pycalver}") -> bool:
